@@ -3,7 +3,7 @@
  "name": "gen64_clear",
  "props": ["C16"],
  "level": "U",
- "tier": "wip",
+ "tier": "quick",
  "harness": "h_gen_clear",
  "enforce": ["ext2fs_clear_generic_bmap"],
  "functions": ["lib/ext2fs/gen_bitmap64.c:ext2fs_clear_generic_bmap"],
@@ -19,7 +19,7 @@
  "name": "gen64_dispatch32",
  "props": ["C16"],
  "level": "U",
- "tier": "wip",
+ "tier": "quick",
  "harness": "h_gen_d32",
  "enforce": ["ext2fs_mark_generic_bmap", "ext2fs_unmark_generic_bmap", "ext2fs_test_generic_bmap",
              "ext2fs_set_generic_bmap_range", "ext2fs_get_generic_bmap_range",
